@@ -31,14 +31,14 @@ Print Assumptions C17_env_path_roundtrip.
    tokens[i]" analysed the real path q of exactly that token (symlink-free), q is a regular .py/.pyw file
    of at most 100000 bytes whose tree passes the visitor, it runs from its first line with no REPL
    afterwards, and no root the script imports exists as <root>.py or <root>/ in removelast q - which is
-   what CPython puts first on sys.path for this command (py_syspath0). *)
+   what CPython puts first on sys.path for this command (py_syspath0), unless -P / -I keep it off the path. *)
 Theorem C17_env_sound_file : forall f cc pc tokens i fl,
   classify_fs f cc pc tokens = PAllow -> py_cmdline tokens = RFile i fl ->
   fl_inspect fl = false /\ fl_skip1 fl = false /\
   exists tok q sz t,
     nth_error tokens i = Some tok /\ realpath f (pjoin (cwd_of cc pc) tok) = Some q /\ link_free f q /\ all_good q /\
     lstat f q = Some (NFile sz (Some t)) /\ suffix_ok (last q []) = true /\ (sz <= 100000)%N /\ visit true false t = [] /\
-    py_syspath0 f (cwd_of cc pc) tokens = SP_dir (removelast q) /\
+    py_syspath0 f (cwd_of cc pc) tokens = (if safe_path tokens i then SP_none else SP_dir (removelast q)) /\
     forall r, In r (roots t) -> shadowed f (removelast q) r = false.
 Proof. exact env_sound_file. Qed.
 Print Assumptions C17_env_sound_file.
@@ -90,7 +90,10 @@ Example ex_env_allow :
   classify_fs (ex_fs false) (Some $"/w") [] [$"python3"; $"/w/d/../lib/x.py"] = PAllow /\
   realpath (ex_fs false) $"/w/d/../lib/x.py" = Some [$"lib"; $"x.py"] /\
   py_syspath0 (ex_fs false) $"/w" [$"python3"; $"x.py"] = SP_dir [$"lib"] /\
-  py_syspath0 (ex_fs false) $"/w" [$"python3"; $"-m"; $"calendar"] = SP_dir [$"w"].
+  py_syspath0 (ex_fs false) $"/w" [$"python3"; $"-m"; $"calendar"] = SP_dir [$"w"] /\
+  py_syspath0 (ex_fs false) $"/w" [$"python3"; $"-BI"; $"x.py"] = SP_none /\
+  py_syspath0 (ex_fs false) $"/w" [$"python3"; $"-W"; $"-P"; $"x.py"] = SP_dir [$"lib"] /\
+  py_syspath0 (ex_fs false) $"/w" [$"python3"; $"-WI"; $"x.py"] = SP_dir [$"lib"].
 Proof. vm_compute. repeat split. Qed.
 Example ex_env_shadow_at_real_dir :
   classify_fs (ex_fs true) (Some $"/w") [] [$"python3"; $"x.py"] = PAsk /\
